@@ -1,9 +1,9 @@
 (* C04 -- iteration visits each selected entity exactly once, with its own data. Statements only.
    Model: Iter.v (blocks, task split, archetype segments, arrays, unrolled loop), used by Manager.ORunJob, whose visits
    are compared with the real library after every job run (tier B) and judged against the property itself (tier A). *)
-Require Import Coq.Lists.List Coq.Arith.Arith Coq.Bool.Bool.
+Require Import Coq.Lists.List Coq.Arith.Arith Coq.Bool.Bool Coq.micromega.Lia.
 From Mustache Require Import Res Iter.
-From Mustache.proofs Require Import IterProofs.
+From Mustache.proofs Require Import IterProofs IterCover.
 Import ListNotations.
 
 (* every population, every version-chunk size, every pattern of changed chunks: the blocks select exactly the indices
@@ -26,26 +26,99 @@ Theorem C04_task_sizes : forall total tasks, 0 < tasks ->
 Proof. intros total tasks H. split; [exact (task_size_sum total tasks H)|intro k; exact (task_size_bounds total tasks k H)]. Qed.
 Print Assumptions C04_task_sizes.
 
-(* FULL STATEMENT for the cursor / segments / arrays (not yet proved in general; evaluated below on concrete
-   configurations inside Coq and on every job run of the correspondence): for every list of filtered archetypes with
-   well-formed blocks and every task count T >= 1, the arrays of tasks 0..T-1, concatenated, are exactly the selected
-   (archetype, real index) pairs in order, every array is non-empty and lies inside one block and one storage chunk. *)
+(* ---- the cursor / segments / arrays: proved for all inputs (proofs/IterCover.v) ----
+   Vocabulary (defined in proofs/IterCover.v):
+     chain lo bl hi     the blocks bl = [(b1,e1); (b2,e2); ...] satisfy lo <= b1 < e1 <= b2 < e2 <= ... <= hi
+                        (non-empty, ascending, pairwise disjoint, inside [lo, hi])
+     fa_wf a            chain 0 (fa_blocks a) (fa_size a)  /\  fa_count a = blocks_count (fa_blocks a)  /\
+                        0 < fa_count a  /\  0 < fa_cap a      -- a filtered archetype as base_job.cpp builds it
+     array_good fas (p, s, l)
+                        the array starts at real index s of the p-th filtered archetype a and has l elements, with
+                        0 < l, inside one block of a, s + l <= population of a, and every index of the array lies in
+                        the same storage chunk (i / fa_cap a = s / fa_cap a)
+     visits_from i arrs the (entity_index, (archetype position, real index)) of every invocation when the arrays are
+                        processed in order and entity_index starts at i and counts up (Manager.ORunJob) *)
 Definition all_selected (fas : list farch) : list (nat * nat) :=
   flat_map (fun pa : nat * farch => map (pair (fst pa)) (selected_of_blocks (fa_blocks (snd pa)))) (combine (seq 0 (length fas)) fas).
 Definition flatten_arrays (per_task : list (list (nat * nat * nat))) : list (nat * nat) :=
   flat_map (fun arrs => flat_map (fun a : nat * nat * nat => let '(pos, start, len) := a in map (pair pos) (seq start len)) arrs) per_task.
-Definition C04_tasks_cover_statement : Prop :=
-  forall fas T, 0 < T -> Forall (fun a => fa_count a = blocks_count (fa_blocks a) /\ 0 < fa_count a /\ 0 < fa_cap a) fas ->
-  exists per_task, run_arrays fas T = Ok per_task /\ flatten_arrays per_task = all_selected fas.
+Definition task_positions (arrs : list (nat * nat * nat)) : list (nat * nat) := flatten_arrays [arrs].
 
+(* the blocks the model computes are well-formed, so fa_wf is what filterArchetype delivers *)
+Theorem C04_blocks_wellformed : forall cs size ms,
+  0 < cs -> 0 < size -> length ms = S ((size - 1) / cs) -> chain 0 (filter_blocks cs size ms) size.
+Proof. exact filter_blocks_chain. Qed.
+Print Assumptions C04_blocks_wellformed.
+
+(* For every list of well-formed filtered archetypes and every task count T >= 1 the run is defined (no underflow, no
+   out-of-range vector access, no empty array, enough fuel) and
+     - there are T tasks, task k is handed task_size N T k positions,
+     - the positions handed to tasks 0..T-1, concatenated, are exactly the selected (archetype, real index) pairs in
+       order; they are pairwise different (so the tasks are pairwise disjoint and together cover everything),
+     - every array is non-empty, lies inside one block (hence inside the archetype) and inside one storage chunk,
+     - the i-th invocation of the run gets entity_index i and the i-th selected position (i = 0..N-1). *)
+Theorem C04_tasks_cover : forall fas T, 0 < T -> Forall fa_wf fas ->
+  exists per_task,
+    run_arrays fas T = Ok per_task /\ length per_task = T /\
+    flatten_arrays per_task = all_selected fas /\
+    NoDup (flatten_arrays per_task) /\
+    map (fun arrs => length (task_positions arrs)) per_task = map (task_size (total_count fas) T) (seq 0 T) /\
+    Forall (Forall (array_good fas)) per_task /\
+    visits_from 0 (concat per_task) = combine (seq 0 (total_count fas)) (all_selected fas).
+Proof.
+  intros fas T HT Hwf. destruct (tasks_cover fas T HT Hwf) as (per & H1 & H2 & H3 & H4 & H5 & H6 & H7).
+  exists per. repeat split; try assumption.
+  rewrite <- H5. apply map_ext. intros arrs. unfold task_positions, flatten_arrays. cbn [flat_map]. rewrite app_nil_r. reflexivity.
+Qed.
+Print Assumptions C04_tasks_cover.
+
+(* the entity_index values of one run are 0, 1, ..., N-1 in this order, each once, and the entity with index i is the
+   i-th selected one *)
+Theorem C04_entity_index : forall fas T, 0 < T -> Forall fa_wf fas ->
+  exists per_task, run_arrays fas T = Ok per_task /\
+    map fst (visits_from 0 (concat per_task)) = seq 0 (total_count fas) /\
+    map snd (visits_from 0 (concat per_task)) = all_selected fas.
+Proof. exact entity_index_exact. Qed.
+Print Assumptions C04_entity_index.
+
+(* ---- the hypotheses are satisfiable, and the concrete evaluation kept from the earlier round ---- *)
 Definition pair_eqb (a b : nat * nat) : bool := Nat.eqb (fst a) (fst b) && Nat.eqb (snd a) (snd b).
 Fixpoint list_eqb (l1 l2 : list (nat * nat)) : bool :=
   match l1, l2 with [], [] => true | a :: t1, b :: t2 => pair_eqb a b && list_eqb t1 t2 | _, _ => false end.
 Definition fa (blocks : list (nat * nat)) (size cap : nat) : farch :=
   {| fa_arch := 0; fa_blocks := blocks; fa_count := blocks_count blocks; fa_size := size; fa_cap := cap |}.
 Definition fas_example : list farch := [fa [(0, 2); (4, 7)] 7 3; fa [(1, 2)] 5 3; fa [(0, 4); (6, 9)] 9 4].
+Example C04_fas_example_wf : Forall fa_wf fas_example.
+Proof. repeat constructor; vm_compute; lia. Qed.
+Example C04_blocks_wellformed_example :
+  filter_blocks 2 7 [true; false; true; true] = [(0, 2); (4, 7)] /\ length [true; false; true; true] = S ((7 - 1) / 2).
+Proof. vm_compute. split; reflexivity. Qed.
 Example C04_tasks_cover_examples :
   forallb (fun T => match run_arrays fas_example T with
                     | Ok per_task => list_eqb (flatten_arrays per_task) (all_selected fas_example)
                     | Err _ => false end) (seq 1 14) = true.
+Proof. vm_compute. reflexivity. Qed.
+Example C04_run_example :
+  run_arrays fas_example 3 =
+  Ok [[(0, 0, 2); (0, 4, 2); (0, 6, 1)]; [(1, 1, 1); (2, 0, 3)]; [(2, 3, 1); (2, 6, 2); (2, 8, 1)]].
+  (* 13 selected entities, sizes 5/4/4; (4,7) is cut at the storage-chunk end 6, (0,4) at the task end, (6,9) at chunk end 8 *)
+Proof. vm_compute. reflexivity. Qed.
+
+(* ---- why the well-formedness of the blocks is needed: the statement of the earlier round, which only asked for
+   fa_count = blocks_count, 0 < fa_count, 0 < fa_cap, is FALSE of the model.  Witnesses: blocks out of order make the
+   unsigned subtraction `fst nb - idx` underflow; empty blocks give an empty array (the C++ loop would not advance);
+   blocks reaching beyond the population are silently truncated (entities are skipped). *)
+Definition C04_tasks_cover_statement_unguarded : Prop :=
+  forall fas T, 0 < T -> Forall (fun a => fa_count a = blocks_count (fa_blocks a) /\ 0 < fa_count a /\ 0 < fa_cap a) fas ->
+  exists per_task, run_arrays fas T = Ok per_task /\ flatten_arrays per_task = all_selected fas.
+Theorem C04_unguarded_statement_false : ~ C04_tasks_cover_statement_unguarded.
+Proof.
+  intros H. destruct (H [fa [(3, 5); (0, 2)] 7 3] 1) as (per & E & _); [lia|repeat constructor|vm_compute in E; discriminate].
+Qed.
+Print Assumptions C04_unguarded_statement_false.
+Example C04_witness_out_of_order : run_arrays [fa [(3, 5); (0, 2)] 7 3] 1 = Err Underflow.
+Proof. vm_compute. reflexivity. Qed.
+Example C04_witness_empty_blocks : run_arrays [fa [(0, 2); (2, 2); (2, 2); (3, 4)] 7 3] 1 = Err (Throw 20).
+Proof. vm_compute. reflexivity. Qed.
+Example C04_witness_beyond_population : run_arrays [fa [(0, 4)] 2 3] 1 = Ok [[(0, 0, 2)]].
 Proof. vm_compute. reflexivity. Qed.
